@@ -252,6 +252,35 @@ theorem removeLoop_all_ok (env : Env) (k : Nat) (reg : Reg) (w : World)
     · intro p hp; exact hok p (by simp [hp])
     · intro hr0; rw [hw]; simp only [he, hr0]; rfl
 
+/-! ### whole histories refine the specification's histories -/
+
+theorem stepW_eq_specStepW (env : Env) (n : Nat) (w : World) (op : Op) (hg : AllGood w.reg)
+    (hre : ∀ i h, env.reenter i h = []) :
+    stepW env n w op = specStepW env w op := by
+  cases op with
+  | log i =>
+    have hq : AllQuiet w.reg := fun p hp => (hg p hp).1
+    simp only [stepW, specStepW, logW, specLogW]
+    rw [logLoop_eq_specLoop env n i w.reg hq (fun p _ => hre i p.1.id)]
+    rfl
+  | complete => rfl
+  | remove hid k => rfl
+  | removeAll k => rfl
+
+theorem runW_eq_specRunW (env : Env) (ht : StderrTame env) (n : Nat) (ops : List Op) (w : World)
+    (hg : AllGood w.reg) (hre : ∀ i h, env.reenter i h = []) :
+    runW env n ops w = specRunW env ops w := by
+  induction ops generalizing w with
+  | nil => rfl
+  | cons op ops ih =>
+    have hs := stepW_good env ht n w op hg
+    have he := stepW_eq_specStepW env n w op hg hre
+    have ih' := ih (stepW env n w op).w hs.1
+    unfold runW specRunW
+    rw [← he]
+    simp only [ih']
+    cases (stepW env n w op).res <;> rfl
+
 /-! ### `ErrorInterceptor.print`: the spelled-out arms of `print` are the write-level program -/
 
 theorem writesOf_printProgram : Print.writesOf Gen.printProgram = Print.fullReport := rfl
